@@ -43,6 +43,8 @@ BOUNDS = {
     "thorough": "fast: EAPI 0-8, destinations {default,/,/usr,/opt/x,/opt/x/,dir with space} x all option strings x all argument lists (5419 invocations); sym: 131 x 76 pairs; e2e: 504 real-daemon sessions (56 per EAPI 0-8)",
 }
 
+TIME_CAP = {"thorough": 840}
+
 PF = "vpkg-1.0"
 PN = "vpkg"
 CATEGORY = "vcat"
@@ -691,6 +693,13 @@ CHUNK = 60
 
 
 def tasks(tier):
+    only = os.environ.get("VERIF_C33_TIERS")  # debug knob (mutant runs): e.g. "fast,sym"; evidence is then NOT the full space
+    if only:
+        return [t for t in _all_tasks(tier) if t[0] in only.split(",")]
+    return _all_tasks(tier)
+
+
+def _all_tasks(tier):
     n = len(fast_invocations(tier))
     out = [("fast", tier, i, min(i + CHUNK, n)) for i in range(0, n, CHUNK)]
     s, l = sym_universe(tier)
@@ -874,13 +883,17 @@ def e2e_invs(eapi, tier):
     return out
 
 
+def _chunk(tier):
+    return E2E_CHUNK if tier == "quick" else 14
+
+
 def e2e_sessions(tier):
     """[(eapi, chunk-index)]"""
     eapis = [0, 4, 7, 8] if tier == "quick" else list(range(9))
     out = []
     for e in eapis:
         n = len(e2e_invs(e, tier))
-        out += [(e, i) for i in range(0, n, E2E_CHUNK)]
+        out += [(e, i) for i in range(0, n, _chunk(tier))]
     return out
 
 
@@ -1019,7 +1032,7 @@ def _e2e_check(daemon, inv, w):
 
 def e2e_work(tier, idx):
     eapi, lo = e2e_sessions(tier)[idx]
-    invs = e2e_invs(eapi, tier)[lo : lo + E2E_CHUNK]
+    invs = e2e_invs(eapi, tier)[lo : lo + _chunk(tier)]
     top = _scratch()
     evals, classes, viol = 0, {}, []
     daemon = None
